@@ -76,7 +76,8 @@ Section path.
       + destruct Hst as [[-> (z & Hz)] | (k & v0 & -> & -> & Hwi)].
         * destruct (wt_arr_inv _ _ Hs) as (te & l & -> & Hte).
           unfold get_index. rewrite Hz.
-          destruct ((z <? 0) || (Z.of_nat (length l) <=? z)); [exact I|].
+          destruct (int_ovf z); [exact I|].
+        destruct ((z <? 0) || (Z.of_nat (length l) <=? z)); [exact I|].
           destruct (nth_error l (Z.to_nat z)) as [x|] eqn:En; [|exact I]. simpl.
           rewrite wfv_arr in Hw. pose proof (forallb_nth _ _ _ _ Hw En) as Hx.
           unfold elem_ok in Hx. apply andb_true_iff in Hx as [Hx1 Hx2].
@@ -120,6 +121,7 @@ Section path.
       destruct s as [i|f]; simpl in Hst.
       + destruct Hst as [[-> (z & Hz)] | (k & v0 & -> & -> & _)]; [|discriminate].
         destruct (wt_arr_inv _ _ Hs) as (te & l & -> & Hte). rewrite Hz.
+        destruct (int_ovf z); [exact I|].
         destruct ((z <? 0) || (Z.of_nat (length l) <=? z)); [exact I|].
         destruct (nth_error l (Z.to_nat z)) as [x|] eqn:En; [|exact I].
         rewrite wfv_arr in Hw. pose proof (forallb_nth _ _ _ _ Hw En) as Hx.
@@ -148,6 +150,7 @@ Section path.
     intros Hst Hnv c Hw Hs. destruct s as [i|f]; simpl in *.
     - destruct Hst as [[-> (z & Hz)] | (k & v0 & -> & -> & Hwi)].
       + destruct (wt_arr_inv _ _ Hs) as (te & l & -> & Hte). simpl. rewrite Hz.
+        destruct (int_ovf z); [exact I|].
         destruct ((z <? 0) || (Z.of_nat (length l) <=? z)); [exact I|].
         destruct (subtype (dyn nv) te) eqn:Es; [|exact I]. split; [|reflexivity].
         rewrite wfv_arr in *. apply forallb_set_nth; [exact Hw|].
